@@ -57,6 +57,7 @@ type Exec struct {
 	retCount          int
 	retPCs            []string
 	cells             map[string]Val // named heap-allocated locals
+	stableNames       map[ssa.Value]string // value -> source name, for variables with a single SSA value
 	locals            []localCell
 	captured          []localCell // cells of captured variables (free variables, heap-allocated named locals)
 	calleeSharesCells bool
@@ -179,6 +180,7 @@ func (e *Exec) run() {
 	o := c.oblige("vacuity", "requires.sat", "true", "false", "preconditions are satisfiable (expect sat)", e.pos(fn.Pos()))
 	o.Expect = "sat"
 
+	e.findStableNames()
 	e.findLoops()
 	order := e.topo()
 	// ancestor sets over the forward (loop-cut) CFG
@@ -491,6 +493,9 @@ func (e *Exec) iteVals(conds []string, vals []Val, t types.Type, prefix string) 
 
 func (e *Exec) loopNames(li *loopInfo, phiVal func(*ssa.Phi) Val) map[string]Val {
 	names := map[string]Val{}
+	for k, v := range e.names {
+		names[k] = v
+	}
 	for _, ins := range li.header.Instrs {
 		phi, ok := ins.(*ssa.Phi)
 		if !ok {
@@ -904,7 +909,12 @@ func (e *Exec) execBlock(b *ssa.BasicBlock, st State) {
 		case *ssa.Phi:
 			// bound by joinState / enterLoop
 		case *ssa.DebugRef:
-			// ignore
+			// single-assignment source variables become nameable in invariants and asserts
+			if n, ok := e.stableNames[x.X]; ok {
+				if v, ok := e.env[x.X]; ok {
+					e.names[n] = v
+				}
+			}
 		case *ssa.Alloc:
 			e.execAlloc(x, &st)
 		case *ssa.FieldAddr:
@@ -1682,4 +1692,50 @@ func returnsFreshAlloc(f *ssa.Function) bool {
 		}
 	}
 	return found
+}
+
+// findStableNames: source variables that denote one SSA value throughout the function
+// (assigned once, never address-taken) can be referred to by name in contracts.
+func (e *Exec) findStableNames() {
+	e.stableNames = map[ssa.Value]string{}
+	vals := map[types.Object]map[ssa.Value]bool{}
+	byName := map[string]map[types.Object]bool{}
+	for _, b := range e.fn.Blocks {
+		for _, ins := range b.Instrs {
+			d, ok := ins.(*ssa.DebugRef)
+			if !ok || d.IsAddr {
+				continue
+			}
+			obj := d.Object()
+			if obj == nil {
+				continue
+			}
+			if _, isVar := obj.(*types.Var); !isVar {
+				continue
+			}
+			if vals[obj] == nil {
+				vals[obj] = map[ssa.Value]bool{}
+			}
+			vals[obj][d.X] = true
+			if byName[obj.Name()] == nil {
+				byName[obj.Name()] = map[types.Object]bool{}
+			}
+			byName[obj.Name()][obj] = true
+		}
+	}
+	for obj, vs := range vals {
+		if len(vs) != 1 || len(byName[obj.Name()]) != 1 {
+			continue
+		}
+		for v := range vs {
+			switch v.(type) {
+			case *ssa.Parameter, *ssa.Phi, *ssa.Const, *ssa.Global, *ssa.Function:
+				continue
+			}
+			if _, isParam := e.params[obj.Name()]; isParam {
+				continue
+			}
+			e.stableNames[v] = obj.Name()
+		}
+	}
 }
